@@ -6,8 +6,9 @@ if [ "$1" = "-R" ]; then REV="-R"; shift; fi
 P="$1"; shift
 cd /repo || exit 2
 if [ -n "$(git status --porcelain)" ]; then echo "drill: /repo is not clean"; exit 2; fi
+cp -r /verif/evidence /verif/.work/evidence_before_drill 2>/dev/null
 git apply $REV "$P" || { echo "drill: patch does not apply"; exit 2; }
 for pid in "$@"; do
   (cd /verif && ./check "$pid" --tier quick 2>&1 | grep -E "VIOLATION|KNOWN-FINDING|violations=" | cut -c1-400)
 done
-git -C /repo checkout -- . ; git -C /repo status --porcelain | head -3
+git -C /repo checkout -- . ; cp /verif/.work/evidence_before_drill/*.json /verif/evidence/ 2>/dev/null; rm -rf /verif/.work/evidence_before_drill; git -C /repo status --porcelain | head -3
